@@ -226,7 +226,13 @@ partial def compatWait (loc : String) (val : String) : M Unit := do
   mbEv
   let rec loop : M Unit := do
     let v ← ld loc
-    if v == val then do P.expect "POLL" []; loop else pure ()
+    if v == val then do
+      -- poll(NULL, 0, 10): normally a delay; interrupted by a signal it fails with EINTR and compat_futex_async returns -1
+      -- with poll's errno (every caller treats that like an EINTR of the futex: re-check and wait again)
+      let intr ← P.ev "POLL | POLL_EINTR" fun e => if e.args == [] && e.op == "POLL" then some false
+                                                     else if e.args == [] && e.op == "POLL_EINTR" then some true else none
+      if intr then cover "compat_poll_EINTR" else loop
+    else pure ()
   loop
 
 /-- `wait_gp()` -/
@@ -617,10 +623,11 @@ partial def qWaitForReaders (waitLoops : Nat) : M Unit := do
   if wl ≥ ATTEMPTS then do
     st "gp.futex" "-1"
     modify fun g => { g with futex := -1 }
-    P.expect "WMB" []
+    -- cmm_smp_wmb(): a store-store fence (hardware no-op on x86-TSO); a full fence in its place is stronger and accepted
+    P.ev "WMB (or MB)" fun e => if (e.op == "WMB" || e.op == "MB") && e.args == [] then some () else none
     let g ← P.get
     qSetWaiting g.registry
-    mbEv
+    P.ev "MB [qsbr: waiting[] stores before the scan of the reader words]" fun e => if e.op == "MB" && e.args == [] then some () else none
     cover "futex_arm"
   let g ← P.get
   qScanList g.registry
